@@ -26,6 +26,10 @@ pub enum OpKind {
     Read,
     SendZc,
     MultiAccept,
+    /// `Signals::receive_signals()`: a stream of single-shot reads of a signalfd on one
+    /// hand-managed operation state (src/process.rs); the model sees a single-shot operation
+    /// (the stream is not polled again after its first item); "drop" is `into_inner()`.
+    Signals,
 }
 
 #[derive(Clone, Copy, Debug, PartialEq)]
@@ -47,6 +51,7 @@ enum Fut {
     Read(Pin<Box<dyn Future<Output = std::io::Result<Vec<u8>>>>>),
     Send(Pin<Box<dyn Future<Output = std::io::Result<usize>>>>),
     Accept(Pin<Box<a10::net::MultishotAccept<'static>>>),
+    Signals(Box<a10::process::ReceiveSignals>),
 }
 
 struct OpSt {
@@ -54,6 +59,10 @@ struct OpSt {
     cancelable: bool,
     fut: Option<Fut>,
     fd: Box<ManuallyDrop<a10::AsyncFd>>,
+    /// The descriptor number the operation's submissions carry.
+    kfd: i32,
+    /// What `ReceiveSignals::into_inner` gave back (kept to the end: dropping it closes the signalfd).
+    signals: Option<a10::process::Signals>,
     /// user_data learnt when the kernel first consumes the submission.
     ud: Option<u64>,
     /// SQE of each attempt as consumed by the kernel.
@@ -78,6 +87,11 @@ struct OpSt {
 
 const CAPS: [u32; 4] = [1, 2, 4, 8];
 static DATA: &[u8] = b"zero copy payload...............";
+
+/// Descriptor numbers open in this process.
+fn open_fds() -> Vec<i32> {
+    (0..1024).filter(|n| unsafe { libc::fcntl(*n, libc::F_GETFD) } != -1).collect()
+}
 
 fn fake_fd(i: usize) -> i32 {
     1_000_000 + i as i32
@@ -293,6 +307,16 @@ impl World {
                     Poll::Ready(Some(Err(e))) => (12, -(e.raw_os_error().unwrap_or(99_999) as i128), None, None),
                 }
             }
+            Fut::Signals(f) => {
+                let mut ctx = std::task::Context::from_waker(&waker);
+                match Pin::new(&mut **f).poll_next(&mut ctx) {
+                    Poll::Pending => (10, 0, None, None),
+                    Poll::Ready(None) => (13, 0, None, None),
+                    // The size of the record the kernel wrote is all that is compared.
+                    Poll::Ready(Some(Ok(_info))) => (11, 128, None, None),
+                    Poll::Ready(Some(Err(e))) => (12, -(e.raw_os_error().unwrap_or(99_999) as i128), None, None),
+                }
+            }
         }));
         let (code, val, buf, afd) = match r {
             Ok(x) => x,
@@ -354,7 +378,7 @@ impl World {
         o.dropped = true;
         // C06 oracle: an operation the kernel still works on (request in flight, or its submission
         // still queued) must be cancelled by exactly one request naming it, when the queue has room.
-        let my_fd = fake_fd(i);
+        let my_fd = o.kfd;
         let (queued, inflight, room) = simk::with(|s| {
             let pend = s.pending_sqes();
             (
@@ -365,11 +389,21 @@ impl World {
         });
         let cancels_before = simk::with(|s| s.pending_sqes().iter().filter(|q| q.opcode == abi::OP_ASYNC_CANCEL).count());
         let fut = o.fut.take();
-        let r = std::panic::catch_unwind(std::panic::AssertUnwindSafe(move || drop(fut)));
-        if r.is_err() {
-            let msg = self.silent.lock().unwrap().take().unwrap_or_default();
-            self.obs.push(14);
-            self.fail(format!("dropping operation {i} panicked: {msg}"));
+        let r = std::panic::catch_unwind(std::panic::AssertUnwindSafe(move || match fut {
+            // The other way of disposing of the stream: take the `Signals` back out.
+            Some(Fut::Signals(f)) => Some(f.into_inner()),
+            other => {
+                drop(other);
+                None
+            }
+        }));
+        match r {
+            Ok(s) => self.ops[i].signals = s,
+            Err(_) => {
+                let msg = self.silent.lock().unwrap().take().unwrap_or_default();
+                self.obs.push(14);
+                self.fail(format!("dropping operation {i} panicked: {msg}"));
+            }
         }
         let cancels: Vec<abi::Sqe> = simk::with(|s| s.pending_sqes().into_iter().filter(|q| q.opcode == abi::OP_ASYNC_CANCEL).collect());
         let new_cancels = cancels.len() - cancels_before.min(cancels.len());
@@ -493,6 +527,15 @@ fn gen_cqe(r: &mut Rng, o: &OpSt, restart_bias: u64) -> Cq {
                 Cq { res: r.below(17) as i32, more: false, notif: false }
             }
         }
+        OpKind::Signals => {
+            if restart {
+                Cq { res: *r.pick(&[-4, -125]), more: false, notif: false }
+            } else if r.chance(1, 6) {
+                Cq { res: *r.pick(&[-5, -9, -11]), more: false, notif: false }
+            } else {
+                Cq { res: 128, more: false, notif: false } // sizeof(struct signalfd_siginfo)
+            }
+        }
         OpKind::SendZc => {
             let first_done = o.posted.iter().any(|c| c.more);
             if first_done {
@@ -555,23 +598,34 @@ pub fn one_case(r: &mut Rng, focus: &Focus, silent: &Arc<Mutex<Option<String>>>)
     };
     let mut kinds = Vec::new();
     for i in 0..n_ops {
-        let kind = *r.pick(&[OpKind::Read, OpKind::Read, OpKind::SendZc, OpKind::MultiAccept]);
+        let kind = *r.pick(&[OpKind::Read, OpKind::Read, OpKind::SendZc, OpKind::MultiAccept, OpKind::Read, OpKind::Signals]);
         let cancelable = r.chance(2, 3);
         simk::add_fake_fd(fake_fd(i));
         let fd = Box::new(ManuallyDrop::new(unsafe { a10::AsyncFd::from_raw_fd(fake_fd(i), sq.clone()) }));
         let fd_ref: &'static a10::AsyncFd = unsafe { &*(&**fd as *const a10::AsyncFd) };
+        let mut kfd = fake_fd(i);
         let fut = match kind {
             OpKind::Read => Fut::Read(Box::pin(fd_ref.read(Vec::with_capacity(16)))),
             OpKind::SendZc => Fut::Send(Box::pin(fd_ref.send(DATA).zc())),
             OpKind::MultiAccept => Fut::Accept(Box::pin(fd_ref.multishot_accept())),
+            OpKind::Signals => {
+                // A real signalfd (the simulated kernel never reads it); its number is what the
+                // READ submissions carry.
+                let before: Vec<i32> = open_fds();
+                let s = a10::process::Signals::from_signals(sq.clone(), [a10::process::Signal::USER2]).expect("signalfd");
+                kfd = open_fds().into_iter().find(|n| !before.contains(n)).expect("the signalfd");
+                Fut::Signals(Box::new(s.receive_signals()))
+            }
         };
-        w.by_fd.insert(fake_fd(i), i);
-        simk::with(|s| s.cancel_policy.push((fake_fd(i), cancelable)));
+        w.by_fd.insert(kfd, i);
+        simk::with(|s| s.cancel_policy.push((kfd, cancelable)));
         w.ops.push(OpSt {
             kind,
             cancelable,
             fut: Some(fut),
             fd,
+            kfd,
+            signals: None,
             ud: None,
             attempts: Vec::new(),
             posted: Vec::new(),
@@ -720,8 +774,15 @@ pub fn one_case(r: &mut Rng, focus: &Focus, silent: &Arc<Mutex<Option<String>>>)
             drop(ManuallyDrop::into_inner(a));
         }
     }
-    for o in w.ops.drain(..) {
+    for mut o in w.ops.drain(..) {
         drop(ManuallyDrop::into_inner(*o.fd));
+        if o.kind == OpKind::Signals {
+            // Whatever still owns the signalfd queues a CLOSE nobody submits (the ring is gone):
+            // close the real descriptor here.
+            drop(o.fut.take());
+            drop(o.signals.take());
+            unsafe { libc::close(o.kfd) };
+        }
     }
     for fd in w.ghost_fds.drain(..) {
         drop(ManuallyDrop::into_inner(*fd));
@@ -764,7 +825,7 @@ pub fn one_case(r: &mut Rng, focus: &Focus, silent: &Arc<Mutex<Option<String>>>)
 fn check_outputs(i: usize, o: &OpSt) -> Option<String> {
     let restart = |v: i128| v == -4 || v == -125;
     match o.kind {
-        OpKind::Read | OpKind::SendZc => {
+        OpKind::Read | OpKind::SendZc | OpKind::Signals => {
             if o.outputs.len() > 1 {
                 return Some(format!("operation {i} resolved {} times", o.outputs.len()));
             }
